@@ -24,7 +24,7 @@ func init() {
 	register("C07", &propDef{
 		Title: "Accepted remote addresses always satisfy the documented transport policy",
 		Rules: []func(*Checker){ruleC07Routes, ruleC07Schemes, ruleC07Query, ruleC07ArchiveSuffix, ruleTypePrefixAnchored("C07.typeprefix"), ruleHostOpaque("C07.hostopaque"), ruleC06SubpathOnly("C07.subpath"), ruleAddrErrors("C07.errors"), ruleNameAgreement("C07.names", "sourceaddrs"), ruleURLFields("C07.urlfields"), ruleTypeSchemeRefusalOnlyForStrings("C07.ctortype"),
-			aliasRuleFiltered(ruleC06FinalPattern, "C06.finalpattern", "C07.finalclass", 1, func(o Oblig) bool { return strings.Contains(o.Key, "parser's groups") }), ruleShorthandGetsWhole("C07.shorthandwhole")},
+			aliasRuleFiltered(ruleC06FinalPattern, "C06.finalpattern", "C07.finalclass", 1, func(o Oblig) bool { return strings.Contains(o.Key, "parser's groups") }), ruleShorthandGetsWhole("C07.shorthandwhole"), ruleNoMarkerMeansNoSubPath("C07.nomarker")},
 		NotDecided: []string{
 			"'every address that follows the documented grammar is accepted' (needs the grammar)",
 			"shorthand expansion correctness; query-argument counting beyond the presence of the tests (map contents)",
@@ -2411,5 +2411,88 @@ func ruleC11Rebuilt(c *Checker) {
 	}
 	if n == 0 {
 		c.anchorMissing(R, "the resolve functions")
+	}
+}
+
+// ruleNoMarkerMeansNoSubPath — an address without "//" in front of its query has no sub-path.
+func ruleNoMarkerMeansNoSubPath(id string) func(*Checker) {
+	return func(c *Checker) {
+		c.rule(id, "In the sub-path splitter (the (string) (string, string) function of the address package that looks for \"//\"), on the edge where the search for \"//\" in the part in front of the query string found nothing, every path returns the address as it was given and an empty sub-path. Looking for the marker behind the '?' as well cuts query values that contain \"//\" in two — a valid archive address is refused or becomes another package — and hides whatever follows the cut from the per-type rules for query arguments.", 1)
+		p := c.P
+		n := 0
+		for _, fn := range p.Funcs {
+			if !p.InModule(fn) || !strings.HasSuffix(pkgPathOf(p, fn), addrPkg) || len(fn.Params) != 1 || fn.Blocks == nil {
+				continue
+			}
+			res := fn.Signature.Results()
+			if res.Len() != 2 || !isStringType(res.At(0).Type()) || !isStringType(res.At(1).Type()) || !isStringType(fn.Params[0].Type()) {
+				continue
+			}
+			src := fn.Params[0]
+			for _, ci := range callsIn(fn) {
+				cl, ok := ci.(*ssa.Call)
+				isCut := ok && isFunc(calleeObj(cl), "strings", "Cut")
+				if !ok || !(isFunc(calleeObj(cl), "strings", "Index") || isCut) {
+					continue
+				}
+				if k, isC := constString(cl.Call.Args[1]); !isC || k != "//" {
+					continue
+				}
+				// the haystack is a part of the parameter that ends where the query begins
+				sl, ok := canon(cl.Call.Args[0]).(*ssa.Slice)
+				if !ok || sl.High == nil || canon(sl.X) != ssa.Value(src) {
+					continue
+				}
+				n++
+				// the not-found edges: result == -1 / < 0, or the false edge of Cut's found
+				var miss []Edge
+				if isCut {
+					if fv := extractOf(cl, 2); fv != nil {
+						_, miss = boolEdges(fn, fv)
+					}
+				}
+				t, f := condEdges(fn, func(v ssa.Value) bool {
+					bo, ok := v.(*ssa.BinOp)
+					if !ok || canon(bo.X) != ssa.Value(cl) {
+						return false
+					}
+					k, isC := constInt(bo.Y)
+					return isC && ((bo.Op == token.EQL && k == -1) || (bo.Op == token.LSS && k == 0) || (bo.Op == token.NEQ && k == -1) || (bo.Op == token.GEQ && k == 0) || (bo.Op == token.GTR && k == -1))
+				})
+				for _, e := range t {
+					ifi := e.From.Instrs[len(e.From.Instrs)-1].(*ssa.If)
+					cnd, _ := stripNot(ifi.Cond)
+					if op := cnd.(*ssa.BinOp).Op; op == token.EQL || op == token.LSS {
+						miss = append(miss, e)
+					}
+				}
+				for _, e := range f {
+					ifi := e.From.Instrs[len(e.From.Instrs)-1].(*ssa.If)
+					cnd, _ := stripNot(ifi.Cond)
+					if op := cnd.(*ssa.BinOp).Op; op == token.NEQ || op == token.GEQ || op == token.GTR {
+						miss = append(miss, e)
+					}
+				}
+				if len(miss) == 0 {
+					c.fail(id, p.FuncName(fn), "not-found edge", p.Pos(cl.Pos()), "the result of the search for \"//\" is not tested for 'not found'")
+					continue
+				}
+				bad := token.NoPos
+				for _, e := range miss {
+					for b := range reachFromEdge(e) {
+						if r, isRet := b.Instrs[len(b.Instrs)-1].(*ssa.Return); isRet && len(r.Results) == 2 {
+							s1, isC := constString(r.Results[1])
+							if canon(r.Results[0]) != ssa.Value(src) || !isC || s1 != "" {
+								bad = r.Pos()
+							}
+						}
+					}
+				}
+				c.check(bad == token.NoPos, id, p.FuncName(fn), "no marker in front of the query: no sub-path", p.Pos(cl.Pos()), "the not-found edge returns the address as given and \"\"", "on the edge where no \"//\" was found in front of the query string the splitter can return something else than the address as given and an empty sub-path (return at "+p.Pos(bad)+")")
+			}
+		}
+		if n == 0 {
+			c.anchorMissing(id, "the search for \"//\" in the part of the address in front of its query")
+		}
 	}
 }
